@@ -4,6 +4,7 @@ import (
 	"bytes"
 	"html/template"
 	"log"
+	"strconv"
 )
 
 func New() *XMLWriter {
@@ -52,7 +53,7 @@ func (w *XMLWriter) Attr(key, value string) *XMLWriter {
 		w.b.WriteString(" ")
 		w.b.WriteString(key)
 		w.b.WriteString("=\"")
-		w.writeEsc(value)
+		w.writeEsc(value, true)
 		w.b.WriteString("\"")
 	} else {
 		log.Print("tag is not open")
@@ -86,7 +87,7 @@ func (w *XMLWriter) write(s string) {
 func (w *XMLWriter) Write(s string) *XMLWriter {
 	w.checkOpenTag()
 	w.checkIndent()
-	w.writeEsc(s)
+	w.writeEsc(s, false)
 	return w
 }
 
@@ -96,8 +97,14 @@ func (w *XMLWriter) WriteHTML(s template.HTML) *XMLWriter {
 	return w
 }
 
-func (w *XMLWriter) writeEsc(s string) {
+// writeEsc writes s escaped. A CR is always written as character reference, TAB
+// and LF inside attribute values too: a parser would normalize them otherwise.
+func (w *XMLWriter) writeEsc(s string, attr bool) {
 	for _, r := range s {
+		if r == '\r' || attr && (r == '\t' || r == '\n') {
+			w.b.WriteString("&#" + strconv.Itoa(int(r)) + ";")
+			continue
+		}
 		switch r {
 		case '\'':
 			w.b.WriteString("&apos;")
